@@ -57,6 +57,7 @@ static void one(Out& out, const std::vector<std::string>& strs, int pset, bool l
     std::vector<std::uint32_t> lcps(n + 1, 0xABCDEF);
     vsched::set_hardware_concurrency(threads);
     vsched::Config cfg; cfg.seed = seed; cfg.strategy = strat; cfg.pct_depth = 3; cfg.pct_steps = 2000; cfg.max_steps = 20000000;
+    cfg.post_points = (seed >> 7) & 1;
     vsched::Result res = vsched::run([&] {
         UCharStringSet ss(ptrs.data(), ptrs.data() + n);
         if (pset == 0) { if (lcp) tlx::sort_strings_parallel_lcp(ptrs.data(), n, lcps.data()); else tlx::sort_strings_parallel(ptrs.data(), n); return; }
